@@ -39,6 +39,10 @@ func genTravTree(r *rand.Rand, depth int) V {
 			var ex V
 			if depth > 0 && r.Intn(2) == 0 {
 				ex = genTravTree(r, depth-1)
+				if r.Intn(4) == 0 {
+					// a Condition whose expression is a Condition (holding a Stack): not descendable
+					ex = V{T: 'C', Form: []string{"n", "a"}[r.Intn(2)], Kw: "in", Op: "c1", Xs: []V{ex}}
+				}
 			} else {
 				ex = V{T: 'i', I: int64(nextLeaf)}
 			}
